@@ -95,3 +95,42 @@ PROPS["C19"] = {
         lane("TestLines", "lines", 30000, 150000, shards=8, must_classes=["has-edits", "two-statements-one-line", "multiline-token"]),
     ],
 }
+
+PROPS["C01"] = {
+    "pkg": "c01",
+    "level": "exploration",
+    "technique": "property-based testing (rapid): generated proto3 schemas x generated messages; round-trip oracle with an explicit field-by-field equivalence",
+    "level_text": ("Schemas are generated as raw proto descriptors in the J5-supported subset (objects, flagged/implicit oneof wrappers, exposed oneofs, "
+                   "flatten, enums incl. prefix-ambiguous names, arrays and maps of scalars/enums/objects/oneofs, every scalar kind, key/date/decimal/"
+                   "timestamp/bytes, j5 and protobuf Any, recursion, nesting) and messages inside the documented wire domain; encode must succeed, "
+                   "decode of the output must succeed, and the result must equal the original under exactly the stated equivalence (decimals numeric, "
+                   "empty flattened object absent, Any by type+payload)."),
+    "level_note": "Sampled; schemas compiled from generated j5s are added as a second lane once the j5s generator exists. Equivalence is the harness's own walker, not proto.Equal on normalised copies.",
+    "rule": ("raw: pgen.Draw(Supported) 1-6 messages/0-3 enums per schema, 1-6 mgen messages per schema (root populated densely, depth<=4). "
+             "Non-trivial: message has a nested object, a set oneof (wrapper or exposed), an array/map of messages, a 64-bit boundary value, an "
+             "optional field at its zero value, an Any, or text needing escapes / non-BMP runes. Distinct by hash(schema bytes, root, message bytes)."),
+    "assumptions": ["the harness's reading of which proto shapes are oneof wrappers / exposed oneofs / flattened (j5ref) matches the documented annotations"],
+    "lanes": [
+        lane("TestRaw", "raw", 1500, 6000, shards=16, must_classes=["msg:exposed-oneof-set", "msg:wrapper-oneof-set", "msg:map-of-messages", "schema:flatten", "schema:any"]),
+    ],
+}
+
+PROPS["C08"] = {
+    "pkg": "c08",
+    "level": "exploration",
+    "technique": "property-based testing (rapid): differential against an independent descriptor-driven reference encoder, plus a strict RFC 8259 parser",
+    "level_text": ("Every encoding of a generated (schema, message) pair is parsed by the harness's own strict RFC 8259 parser (no NaN, no bad escapes, no "
+                   "trailing bytes, duplicate keys detected) and compared member by member with a reference document computed from descriptor and "
+                   "message alone: bare 32-bit ints/floats/bools, quoted 64-bit ints and decimals, padded std base64, RFC3339 'Z' timestamps (same instant), "
+                   "zero-padded dates, short enum names, oneof = {!type, key}, Any = {!type, value}, flatten inlined, member present iff set, JSON names. "
+                   "A second lane adds non-finite floats and out-of-range dates/timestamps and requires only error-or-valid-JSON."),
+    "level_note": "Sampled; the reference encoder is the harness's reading of README 'Scalar Types' and annotations.proto; floats compared by value, decimals numerically, timestamps by instant.",
+    "rule": ("raw: as C01 (pgen Supported x mgen); extended: same with NaN/+-Inf floats, years outside 0001-9999. Non-trivial: document has a oneof/Any "
+             "(!type), an array of objects, text needing escapes, or >2 value classes (raw); contains a non-finite float or out-of-range date/time (extended). "
+             "Distinct by hash(schema bytes, root, message bytes)."),
+    "assumptions": ["same j5ref interpretation as C01"],
+    "lanes": [
+        lane("TestRaw", "raw", 1500, 6000, shards=16, must_classes=["msg:exposed-oneof-set", "msg:wrapper-oneof-set", "schema:flatten", "schema:any"]),
+        lane("TestExtended", "extended", 600, 3000, shards=8, must_classes=["msg:non-finite-float", "msg:out-of-range-date"]),
+    ],
+}
